@@ -74,3 +74,43 @@ fn compound_componentwise_r1_so2() {
     assert!(rv_of(&e).values[0].to_bits() == e0.values[0].to_bits() && so2_of(&e).value.to_bits() == e1.value.to_bits());
     assert!(sp.satisfies_bounds(&e));                   // C11 for the compound: enforced ==> accepted
 }
+
+// light version (BOUNDED layout R^1 x R^1): the bounds check is the conjunction of the component checks and the
+// resolution is the weighted combination, through the real dyn dispatch
+#[kani::proof]
+#[kani::unwind(7)]
+#[kani::stub(f64::sqrt, sqrt_model)]
+#[kani::stub(f64::powi, powi_model)]
+fn compound_satisfies_lvsl_r1_r1() {
+    let (a_sp, b_sp) = (r1(), r1());
+    let w0: f64 = kani::any(); let w1: f64 = kani::any();
+    kani::assume(fin(w0) && fin(w1));
+    let sp = CompoundStateSpace::new(vec![Box::new(a_sp.clone()), Box::new(b_sp.clone())], vec![w0, w1]);
+    let (x0, x1): (f64, f64) = (kani::any(), kani::any());
+    let p = CompoundState::new(vec![Box::new(RealVectorState::new(vec![x0])), Box::new(RealVectorState::new(vec![x1]))]);
+    kani::cover!(true);
+    let c0 = a_sp.satisfies_bounds(&RealVectorState::new(vec![x0]));
+    let c1 = b_sp.satisfies_bounds(&RealVectorState::new(vec![x1]));
+    assert!(sp.satisfies_bounds(&p) == (c0 && c1));
+}
+
+// lighter still: spaces built without the validating loop, unwind 4
+fn r1_light() -> RealVectorStateSpace {
+    let lo: f64 = kani::any(); let hi: f64 = kani::any();
+    kani::assume(lo < hi);
+    let mut sp = RealVectorStateSpace::new(1, None).unwrap();
+    sp.bounds = vec![(lo, hi)];
+    sp
+}
+#[kani::proof]
+#[kani::unwind(4)]
+fn compound_satisfies_r1_r1_light() {
+    let (a_sp, b_sp) = (r1_light(), r1_light());
+    let sp = CompoundStateSpace::new(vec![Box::new(a_sp.clone()), Box::new(b_sp.clone())], vec![1.0, 1.0]);
+    let (x0, x1): (f64, f64) = (kani::any(), kani::any());
+    let p = CompoundState::new(vec![Box::new(RealVectorState::new(vec![x0])), Box::new(RealVectorState::new(vec![x1]))]);
+    kani::cover!(true);
+    let c0 = a_sp.satisfies_bounds(&RealVectorState::new(vec![x0]));
+    let c1 = b_sp.satisfies_bounds(&RealVectorState::new(vec![x1]));
+    assert!(sp.satisfies_bounds(&p) == (c0 && c1));
+}
